@@ -111,98 +111,135 @@ theorem Query.plain_pred {q p : Query} {r : Option Seg} (hq : q.plain = true) (h
       intro h a he; simp at he
   · simp at hp
 
-/-! ### the evaluation of a plain query on `NoCache` keeps the global cache -/
+/-! ### the evaluation of a plain query on `NoCache` leaves the global cache literally unchanged -/
 
-theorem evalParams_plain (env : Env) : ∀ n (w : World) (ps : List Param) (raw parent : Str),
-    ps.all Param.isStr = true → (evalParams env n w ps raw parent).1 = w
-  | 0, w, ps, raw, parent, _ => by rw [evalParams_zero]
-  | n + 1, w, [], raw, parent, _ => by rw [evalParams_nil]
+/-- the world with some calls appended to the log, everything else as it was -/
+def World.logs (w : World) (c : List Str) : World := { w with calls := w.calls ++ c }
+
+@[simp] theorem World.logs_nil (w : World) : w.logs [] = w := by cases w; simp [World.logs]
+@[simp] theorem World.logs_logs (w : World) (a b : List Str) : (w.logs a).logs b = w.logs (a ++ b) := by
+  simp [World.logs, List.append_assoc]
+@[simp] theorem World.cache_logs (w : World) (c : List Str) : (w.logs c).cache = w.cache := rfl
+@[simp] theorem World.calls_logs (w : World) (c : List Str) : (w.logs c).calls = w.calls ++ c := rfl
+@[simp] theorem World.dataAt_logs (w : World) (c k) : (w.logs c).dataAt k = w.dataAt k := rfl
+@[simp] theorem World.get_logs (w : World) (c k) : (w.logs c).get k = w.get k := rfl
+
+theorem World.logCall_eq_logs (w : World) (st sig args) : w.logCall st sig args = w.logs (callOf st sig args) := by
+  unfold World.logCall callOf; split
+  · simp
+  · rfl
+
+/-- plain parameters: no world traffic, no calls, same conversion -/
+theorem evalParams_plain_exact (env : Env) : ∀ n (w : World) (ps : List Param) (raw parent : Str),
+    ps.all Param.isStr = true →
+      evalParams env n w ps raw parent = (w, (refParams env n ps raw parent).1) ∧ (refParams env n ps raw parent).2 = []
+  | 0, w, ps, raw, parent, _ => by rw [evalParams_zero, refParams_zero]; exact ⟨rfl, rfl⟩
+  | n + 1, w, [], raw, parent, _ => by rw [evalParams_nil, refParams_nil]; exact ⟨rfl, rfl⟩
   | n + 1, w, .str t pos :: ps, raw, parent, h => by
-    rw [evalParams_str]
-    have ih := evalParams_plain env n w ps raw parent (by simpa [Param.isStr] using h)
-    generalize evalParams env n w ps raw parent = x at ih ⊢
-    rcases x with ⟨w1, r⟩
-    cases r <;> exact ih
+    rw [evalParams_str, refParams_str]
+    obtain ⟨h1, h2⟩ := evalParams_plain_exact env n w ps raw parent (by simpa [Param.isStr] using h)
+    rw [h1]
+    generalize refParams env n ps raw parent = x at h2 ⊢
+    rcases x with ⟨r, c⟩
+    simp only at h2; subst h2
+    cases r <;> exact ⟨rfl, rfl⟩
   | n + 1, w, .link lq pos :: ps, raw, parent, h => by simp [Param.isStr] at h
 
-theorem call_keeps (env : Env) (n : Nat) (w1 : World) (st act raw sig x)
-    (hns : sig.name ≠ s "sub") : Keeps w1 (evalCall env n w1 st act raw sig x).1 := by
-  unfold evalCall
+theorem call_plain_nocache (env : Env) (n : Nat) (w1 : World) (st act raw sig x) (hns : sig.name ≠ s "sub") :
+    evalCall env n w1 st act raw sig x false =
+      (w1.logs (refCall env n st act raw sig x).2, (refCall env n st act raw sig x).1) := by
+  unfold evalCall refCall
   split
-  · exact Keeps.refl _
-  · exact Keeps.storeMeta _ _ _
+  · simp
+  · simp
   · split
-    · exact Keeps.logCall _ _ _ _
-    · exact (Keeps.logCall _ _ _ _).trans (Keeps.storeMeta _ _ _)
-    · exact (Keeps.logCall _ _ _ _).trans (Keeps.storeMeta _ _ _)
-    · exact (Keeps.logCall _ _ _ _).trans (Keeps.storeMeta _ _ _)
-    · exact (Keeps.logCall _ _ _ _).trans (Keeps.storeMeta _ _ _)
-    · next hc => exact absurd (cmdSem_subeval_name hc) hns
+    all_goals try simp [World.logCall_eq_logs]
+    next hc => exact absurd (cmdSem_subeval_name hc) hns
 
-theorem act_keeps (env : Env) (n : Nat) (w : World) (st : EState) (a : Action) (raw parent : Str) (extra : Extra)
-    (uc : Bool) (ha : a.plain = true) : Keeps w (evalAction env n w st a raw parent extra uc).1 := by
+/-- a link-free, `sub`-free action on `NoCache`: the reference outcome, the reference calls, nothing else -/
+theorem act_plain_nocache (env : Env) (n : Nat) (w : World) (st : EState) (a : Action) (raw parent : Str)
+    (extra : Extra) (ha : a.plain = true) :
+    evalAction env n w st a raw parent extra false =
+      (w.logs (refAction env n st a raw parent extra).2, (refAction env n st a raw parent extra).1) := by
   cases n with
-  | zero => rw [evalAction_zero]; exact Keeps.refl _
+  | zero => rw [evalAction_zero, refAction_zero]; simp
   | succ n =>
     simp only [Action.plain, Bool.and_eq_true, bne_iff_ne, ne_eq] at ha
-    rw [evalAction_succ]
-    have h0 := Keeps.storeMeta w raw (s "evaluation")
+    rw [evalAction_succ, refAction_succ]
+    simp only [World.metaIf_false]
     split
-    · exact h0
+    · simp
     · split
-      · exact h0
+      · simp
       · split
-        · exact h0.trans (Keeps.storeMeta _ _ _)
+        · simp
         · next sig hr =>
-          have h1 := evalParams_plain env n (w.storeMeta raw (s "evaluation")) a.params raw parent ha.2
-          generalize evalParams env n (w.storeMeta raw (s "evaluation")) a.params raw parent = x at h1 ⊢
-          rcases x with ⟨w1, r⟩
-          simp only at h1; subst h1
+          obtain ⟨h1, h2⟩ := evalParams_plain_exact env n w a.params raw parent ha.2
+          rw [h1]
+          generalize refParams env n a.params raw parent = x at h2 ⊢
+          rcases x with ⟨r, c⟩
+          simp only at h2; subst h2
           cases r with
-          | inr o => exact h0
-          | inl given =>
-            exact h0.trans (call_keeps env n _ st a raw sig _ (by rw [resolve_name hr]; exact ha.1))
+          | inr o => simp
+          | inl g =>
+            simp only [List.nil_append]
+            exact call_plain_nocache env n w st a raw sig _ (by rw [resolve_name hr]; exact ha.1)
 
-/-- C05, "never stored": with `useCache = false` the evaluation of a link-free, `sub`-free query adds no data to
-the global cache, for every fuel, world, spelling, extra parameters and input value -/
-theorem evalQ_plain_keeps (env : Env) : ∀ n (w : World) (q : Query) (raw : Str) (extra : Extra) (input : Option Val),
-    q.plain = true → Keeps w (evalQ env n w q raw extra input false).1
-  | 0, w, q, raw, extra, input, _ => by rw [evalQ_zero]; exact Keeps.refl _
+theorem after_plain_nocache (env : Env) (n : Nat) (w1 : World) (o : Outcome) (parent : Str) (r : Option Seg)
+    (key raw : Str) (extra : Extra) (hr : ∀ h a, r = some (.transform h [a] none) → a.plain = true) :
+    evalAfter env n w1 o parent r key raw extra false =
+      (w1.logs (refAfter env n o parent r key raw extra).2, (refAfter env n o parent r key raw extra).1) := by
+  unfold evalAfter refAfter
+  split
+  · simp
+  · simp
+  · simp
+  · split
+    · simp
+    · unfold evalPost refPost
+      split
+      · simp
+      · simp [fileW]
+      · next hd a =>
+        rw [act_plain_nocache env n w1 _ a raw parent extra (hr hd a rfl)]
+        simp only
+        cases (refAction env n ‹EState› a raw parent extra).1 <;> simp [admitW]
+      · simp
+
+/-- C05/C01, `nocache_chain_frame`: with `useCache = false` (injected input value, `evaluate_on`) the evaluation
+of a link-free, `sub`-free query is exactly the reference interpretation — same outcome, same calls, same
+fuel — and the global cache is literally unchanged: not even progress metadata is written. -/
+theorem evalQ_plain_nocache (env : Env) : ∀ n (w : World) (q : Query) (raw : Str) (extra : Extra) (input : Option Val),
+    q.plain = true →
+      evalQ env n w q raw extra input false =
+        (w.logs (refQ env n q raw extra input).2, (refQ env n q raw extra input).1)
+  | 0, w, q, raw, extra, input, _ => by rw [evalQ_zero, refQ_zero]; simp
   | n + 1, w, q, raw, extra, input, hq => by
-    rw [evalQ_succ']
+    rw [evalQ_succ', refQ_succ']
     simp only [Bool.and_false, Bool.false_eq_true, if_false]
     split
-    · exact Keeps.refl _
-    · have hpre : Keeps w (evalPre env n w q raw input false).1 := by
-        unfold evalPre
+    · simp
+    · have hpre : evalPre env n w q raw input false = (w.logs (refPre env n q input).2, (refPre env n q input).1) := by
+        unfold evalPre refPre
         split
-        · exact Keeps.refl _
+        · simp
         · next p hp =>
           obtain ⟨r, hpr, _⟩ := Query.preQ_some hp
-          exact (Keeps.storeMeta _ _ _).trans
-            (evalQ_plain_keeps env n _ p _ .none input (Query.plain_pred hq hpr).1)
-      refine hpre.trans ?_
-      unfold evalAfter
-      split
-      · exact Keeps.refl _
-      · exact Keeps.refl _
-      · exact Keeps.refl _
-      · split
-        · exact Keeps.storeMeta _ _ _
-        · unfold evalPost
-          generalize hrem : q.preRem = r
-          split
-          · exact Keeps.refl _
-          · simp only [fileW, Bool.not_false, if_true]; exact Keeps.storeMeta _ _ _
-          · next hd a =>
-            obtain ⟨p0, hp0⟩ := Query.preRem_some hrem
-            have ha := (Query.plain_pred hq hp0).2 hd a rfl
-            have h1 := act_keeps env n (evalPre env n w q raw input false).1 ‹EState› a raw q.preParent extra false ha
-            generalize evalAction env n (evalPre env n w q raw input false).1 ‹EState› a raw q.preParent extra false = y at h1 ⊢
-            rcases y with ⟨w2, o2⟩
-            cases o2 with
-            | st st2 => simp only [admitW, Bool.not_false, if_true]; exact h1
-            | _ => exact h1
-          · exact Keeps.refl _
+          simp only [World.metaIf_false]
+          exact evalQ_plain_nocache env n w p _ .none input (Query.plain_pred hq hpr).1
+      have hrem : ∀ h a, q.preRem = some (.transform h [a] none) → a.plain = true := by
+        intro h a hr
+        obtain ⟨p0, hp0⟩ := Query.preRem_some hr
+        exact (Query.plain_pred hq hp0).2 h a rfl
+      rw [hpre]
+      simp only
+      rw [after_plain_nocache env n _ _ _ _ _ _ _ hrem]
+      simp
+
+/-- hence no entry gains data -/
+theorem evalQ_plain_keeps (env : Env) (n : Nat) (w : World) (q : Query) (raw : Str) (extra : Extra)
+    (input : Option Val) (hq : q.plain = true) : Keeps w (evalQ env n w q raw extra input false).1 := by
+  rw [evalQ_plain_nocache env n w q raw extra input hq]
+  exact fun k s h => h
 
 end Liquer
